@@ -758,3 +758,91 @@ Theorem fast_index_is_not_first_match :
   option_map r_cluster (first_route [r1; r2] rq) = Some "first" /\
   option_map r_cluster (fast_lookup [r1; r2] "x-env" "gray") = Some "second".
 Proof. vm_compute. split; reflexivity. Qed.
+
+(* ------------------------------------------------------------------ acceptance = no two domains equal after normalisation *)
+(* a configuration is well formed when every route can be built and every domain classifies on its own *)
+Definition vhost_wf (v : vhost) : Prop :=
+  existsb r_bad (vh_routes v) = false /\ Forall (fun d => exists k, classify d = Ok k) (vh_domains v).
+
+Lemma add_entry_fresh t i k : ~ present t k -> exists t', add_entry t i k = Ok t'.
+Proof.
+  intros Hnp. destruct k as [h p|s p|]; cbn [add_entry].
+  - destruct (existsb (key_eqb h p) (t_exact t)) eqn:E; [|eauto]. exfalso. apply Hnp.
+    apply existsb_exists in E as ([[x y] j] & Hin & Hk). apply key_eqb_true in Hk as [-> ->]. exists j. exact Hin.
+  - destruct (existsb (key_eqb p s) (t_wild t)) eqn:E; [|eauto]. exfalso. apply Hnp.
+    apply existsb_exists in E as ([[x y] j] & Hin & Hk). apply key_eqb_true in Hk as [-> ->]. exists j. exact Hin.
+  - destruct (t_default t) as [d|] eqn:E; [|eauto]. exfalso. apply Hnp. exists d. exact E.
+Qed.
+
+Lemma add_all_complete es : forall t, NoDup (map snd es) -> (forall k, In k (map snd es) -> ~ present t k) ->
+  exists t', add_all t es = Ok t'.
+Proof.
+  induction es as [|[i k] es IH]; intros t Hnd Hfresh; cbn [add_all]; [eauto|].
+  cbn [map snd] in Hnd. inversion Hnd as [|? ? Hnin Hnd']; subst.
+  destruct (add_entry_fresh t i k (Hfresh k (or_introl eq_refl))) as [t1 E]. rewrite E.
+  apply IH; [exact Hnd'|]. intros k' Hin [j Hj].
+  destruct (add_entry_ok _ _ _ _ E) as [_ Hiff]. apply Hiff in Hj as [Hj|[_ ->]].
+  - apply (Hfresh k' (or_intror Hin)). exists j. exact Hj.
+  - contradiction.
+Qed.
+
+Lemma add_domains_wf t i ds : Forall (fun d => exists k, classify d = Ok k) ds ->
+  add_domains t i ds = add_all t (kinds_of i ds).
+Proof.
+  intros H; revert t; induction H as [|d ds [k Hk] _ IH]; intros t; cbn [add_domains kinds_of]; [reflexivity|].
+  rewrite Hk. cbn [add_all]. destruct (add_entry t i k); [apply IH|reflexivity].
+Qed.
+
+Lemma build_from_wf vs : Forall vhost_wf vs -> forall t i, build_from t i vs = add_all t (entries_from i vs).
+Proof.
+  induction 1 as [|v vs [Hb Hd] _ IH]; intros t i; cbn [build_from entries_from]; [reflexivity|].
+  rewrite Hb, add_all_app, (add_domains_wf t i _ Hd).
+  destruct (add_all t (kinds_of i (vh_domains v))); [apply IH|reflexivity].
+Qed.
+
+Lemma add_domains_ok_wf t i ds t' : add_domains t i ds = Ok t' -> Forall (fun d => exists k, classify d = Ok k) ds.
+Proof.
+  revert t; induction ds as [|d ds IH]; intros t; cbn [add_domains]; [constructor|].
+  destruct (classify d) as [k|e] eqn:E; [|discriminate]. destruct (add_entry t i k) as [t1|]; [|discriminate].
+  intros H. constructor; [eauto|eapply IH; eauto].
+Qed.
+
+Lemma build_from_ok_wf vs : forall t i t', build_from t i vs = Ok t' -> Forall vhost_wf vs.
+Proof.
+  induction vs as [|v vs IH]; intros t i t'; cbn [build_from]; [constructor|].
+  destruct (existsb r_bad (vh_routes v)) eqn:Eb; [discriminate|].
+  destruct (add_domains t i (vh_domains v)) as [t1|] eqn:Ed; [|discriminate].
+  intros H. constructor; [split; [exact Eb|eapply add_domains_ok_wf; eauto]|eapply IH; eauto].
+Qed.
+
+(* NewRouters accepts a configuration exactly when it is non-empty, well formed, and no two of its domains are the same
+   after normalisation (classify: lower case, host / port split, "*" = "*:*") - wherever the repetitions are *)
+Theorem build_accepts_iff c :
+  (exists t, build c = Ok t) <-> c <> [] /\ Forall vhost_wf c /\ NoDup (map snd (entries c)).
+Proof.
+  split.
+  - intros [t Hb]. split; [|split].
+    + intros ->. discriminate Hb.
+    + unfold build in Hb. destruct c; [discriminate|]. eapply build_from_ok_wf; eauto.
+    + apply build_entries in Hb. destruct (add_all_ok _ _ _ Hb) as (_ & Hnd & _). exact Hnd.
+  - intros (Hne & Hwf & Hnd). unfold build, entries in *. destruct c as [|v vs]; [contradiction|].
+    rewrite (build_from_wf _ Hwf). apply add_all_complete; [exact Hnd|].
+    intros k _ [j Hj]. exact (empty_holds _ _ Hj).
+Qed.
+
+(* no shadowing: in an accepted configuration a domain that is the best candidate for a Host decides the lookup - the
+   virtual host that owns it is the one used, for every order the unstable sort may leave *)
+Theorem no_shadowing c t wl h host port i k s :
+  build c = Ok t -> wl_ok t wl -> host_parts h = Some (host, port) ->
+  In (i, k) (entries c) -> score host port k = Some s ->
+  (forall j k' s', In (j, k') (entries c) -> score host port k' = Some s' -> score_le s' s) ->
+  find_vhost_with wl t (Some h) = Some i.
+Proof.
+  intros Hb Hwl Hh Hin Hs Hmax. rewrite (vhost_precedence c t wl h host port Hb Hwl Hh).
+  eapply spec_vhost_beats; eauto.
+Qed.
+
+(* the shape of the seeded mistake: a repetition with a same-length distractor between is still a repetition *)
+Theorem repeated_wildcard_rejected :
+  build [Build_vhost ["*.aaa.com"] []; Build_vhost ["*.bbb.com"] []; Build_vhost ["*.AAA.com"] []] = Err EDupVirtualHost.
+Proof. vm_compute. reflexivity. Qed.
